@@ -74,6 +74,7 @@ TypeName(vt) == CASE vt = "string" -> <<115, 116, 114, 105, 110, 103>>
                  [] vt = "float64" -> <<102, 108, 111, 97, 116, 54, 52>>
                  [] vt = "duration" -> <<116, 105, 109, 101, 46, 68, 117, 114, 97, 116, 105, 111, 110>>
                  [] vt = "um" -> <<109, 97, 105, 110, 46, 85, 77>>
+                 [] vt = "us" -> <<109, 97, 105, 110, 46, 85, 83>>
                  [] vt = "tb" -> <<109, 97, 105, 110, 46, 84, 66>>
                  [] vt = "vv" -> <<109, 97, 105, 110, 46, 86, 86>>
                  [] vt = "cc" -> <<109, 97, 105, 110, 46, 67, 67>>
